@@ -182,8 +182,9 @@ def h_product_after_update(env, N, how, first):
         r1 = env.run(lambda: P.rotate_by(M.pa.Pauli(gg.copy(), pg)))
         g2, p2 = ref.ref_rotate(gg, pg, g, p)
     elif how == 'transform':
-        r1 = env.run(lambda: P.transform_by(M.st.clifford_rotation_map(M.pa.Pauli(np.array([0, 1] * N, dtype=object), 0))))     # conjugation by exp(i pi/4 Z..Z)
-        g2, p2 = ref.ref_rotate(np.array([0, 1] * N, dtype=object), 0, g, p)
+        zz = env.const([0, 1] * N)
+        r1 = env.run(lambda: P.transform_by(M.st.clifford_rotation_map(M.pa.Pauli(zz.copy(), 0))))     # conjugation by exp(i pi/4 Z..Z)
+        g2, p2 = ref.ref_rotate(zz, 0, g, p)
     else:
         g2 = env.bits('g2', (2 * N,))
         p2 = env.phases('p2', (1,))[0]
